@@ -67,7 +67,7 @@ PROPS = {
         "engines": [{"name": "sched", "rule": "random benches of 1-4 probe models (mailbox capacity 1..512), 0-2 EventSources, handler scripts that schedule (once/keyed/periodic/keyed-periodic, relative/absolute, malformed: now/past deadlines, zero periods) and cancel on their own context, scripted clock lags with/without tolerance, Scheduler requests issued from inside Clock::synchronize (queue unlocked), 5-60 driver commands (schedule on inputs and through EventSource actions, cancel incl. stale keys, step, step_until incl. past targets, process_event, queue dumps through the verif hook); single-threaded and 2/3/4/8-thread executors; the implementation's observed delivery order is passed to the model as its schedule oracle and validated (every (time, origin, target) chain in epoch order); non-trivial = at least two handler executions; distinct by hash of requests+responses"}],
         "assumptions": ["the scheduler queue is modelled as a list sorted by (time, origin, epoch) with stable insertion (justified by C20's pq_refines_stable_sorted_list)", 'atomicity: each scheduling request and the locked part of step_to_next_bounded run under the queue mutex (std::sync::Mutex trusted); foreign requests are interleaved at the synchronisation point of a step', 'the run phase is any order of the spawned deliveries (oracle); executor correctness is C04/C05, mailbox FIFO is C02/C12', 'MonotonicTime arithmetic does not overflow (Nat nanoseconds); epochs do not reach u64::MAX'],
         "trusted_base": ["M-SCHED is hand-written from simulation.rs / scheduler.rs; tied by the `sched` engine (responses, canonical fire/sync log, queue dumps)"],
-        "explanation": 'theorems sched_accepts_iff, sched_rejected_no_effect, sched_accepted_is_pending, every_stepping_call_returns, pull_loop_complete, race_free',
+        "explanation": 'theorems sched_accepts_iff, sched_rejected_no_effect, sched_accepted_is_pending, every_stepping_call_returns, pull_loop_complete, race_free, requests_and_time_writes_are_atomic_in_the_source; the sched engine also issues requests from a second thread that is inside the scheduler (parked in its Deadline conversion) when the stepping call starts (`race` commands)',
         "level_text": 'Lean 4 theorems over M-SCHED: a request is accepted iff deadline > now and period != 0, a rejected one changes nothing, an accepted one is queued with exactly its deadline, no stepping call diverges (fuel sufficiency from the invariant), nothing due is left behind by the pull loop, and foreign requests at the synchronisation point preserve the invariant (race freedom at lock granularity); plus monitors on the real code for the acceptance rule and a watchdog for non-returning calls',
         "level_note": "trusted: Lean kernel, propext/Classical.choice/Quot.sound, the differential harness and its canonicalisation (fires sorted per (model, origin) chain inside a time segment), Mutex; thread interleavings inside the executor are represented by the schedule oracle, not by real-thread exploration",
     },
